@@ -35,7 +35,7 @@ type storeCfg struct {
 	fileSize    int
 	compression int
 	vlogCache   int  // Options.VLogCacheSize (0 = no value cache)
-	rewind      bool // a pre-committed transaction is discarded and its tx-log space written over
+	rewind      bool // the tx log holds the record of a discarded pre-committed transaction between committed ones
 }
 
 var configs = []storeCfg{
@@ -46,7 +46,7 @@ var configs = []storeCfg{
 	{"v1-multi", 1, false, 3, 128, appendable.NoCompression, 0, false},
 	{"v0-multi-vcache", 0, false, 2, 4096, appendable.NoCompression, 64, false},
 	{"v1-flate-vcache", 1, false, 1, 512, appendable.FlateCompression, 64, false},
-	{"v1-single-rewound", 1, false, 1, 160, appendable.NoCompression, 0, true},
+	{"v1-single-deadrecord", 1, false, 1, 160, appendable.NoCompression, 0, true},
 }
 
 // 0 embedded, 1 single value log, 2 several value logs (Tie.C09.vmode_of)
@@ -375,9 +375,9 @@ func build(cfg storeCfg, rng *rand.Rand) (*image, error) {
 		}
 	}
 	if cfg.rewind {
-		// a big transaction is pre-committed only, then discarded; the next (small) commit rewinds the
-		// tx log to the discarded record's offset and writes over its beginning: before commit 09014a8
-		// the rest of the discarded record stayed in the files behind the new end of the log
+		// a big transaction is pre-committed only, synced, then discarded: its record stays in the tx log
+		// (DiscardPrecommittedTxsSince does not rewind the log) and the next commit is written after it,
+		// so the commit log skips a stretch of well-formed but dead record bytes
 		st.SetExternalCommitAllowance(true)
 		tx, err := st.NewWriteOnlyTx(ctx)
 		if err != nil {
@@ -482,6 +482,10 @@ func build(cfg storeCfg, rng *rand.Rand) (*image, error) {
 		if err != nil {
 			return nil, fmt.Errorf("tx %d: %v", ti.id, err)
 		}
+	}
+	if os.Getenv("C09_DEBUG") != "" {
+		lt := img.txs[len(img.txs)-1]
+		fmt.Fprintf(os.Stderr, "%s: tx log holds %d bytes, last committed record ends at %d\n", cfg.name, len(img.txlog), lt.off+int64(lt.size))
 	}
 	if !cfg.embedded {
 		for i := 0; i < cfg.ioConc; i++ {
